@@ -24,7 +24,7 @@ One(s, out) == {[s |-> s, out |-> out]}
 Inputs ==
   {[k |-> "Enable"], [k |-> "Disable"], [k |-> "LinkUp"], [k |-> "LinkLost"], [k |-> "Timer"]}
   \cup {[k |-> "S1F13"]}
-  \cup {[k |-> "S1F14", ack |-> a] : a \in {0, 1}}
+  \cup {[k |-> "S1F14", ack |-> a] : a \in {0, 1, 256, 257}}    \* 256: COMMACK item of length 0, 257: two bytes 00 00 -- neither is COMMACK = 0
   \cup {[k |-> "Other", w |-> w] : w \in BOOLEAN}
 
 (* feasibility is decided by harness facts only (enabled flag, link)                             *)
@@ -68,7 +68,9 @@ Eff(s, i) ==
            [] OTHER -> One(s, Quiet)
     [] i.k = "S1F14" ->
          CASE s.cm = "WAIT_CRA" /\ i.ack = 0 -> One([s EXCEPT !.cm = "COMMUNICATING"], O(<<>>, {}, 1, 0, "-"))
-           [] s.cm = "WAIT_CRA" /\ i.ack # 0 -> One([s EXCEPT !.cm = "WAIT_DELAY"], Quiet)     \* refused attempt
+           [] s.cm = "WAIT_CRA" /\ i.ack # 0 /\ i.ack < 256 -> One([s EXCEPT !.cm = "WAIT_DELAY"], Quiet)     \* refused attempt
+           [] s.cm = "WAIT_CRA" /\ i.ack >= 256 ->     \* COMMACK item malformed: refused, or ignored like no answer (T3 runs on) -- never accepted
+                One([s EXCEPT !.cm = "WAIT_DELAY"], Quiet) \cup One(s, Quiet)
            [] OTHER -> One(s, Quiet)
     [] i.k = "Other" ->
          IF s.cm = "COMMUNICATING"
